@@ -1,0 +1,12 @@
+//go:build verif
+
+package gradtrack
+
+import "sync/atomic"
+
+var verifRuleCount atomic.Int64
+
+// noteRule counts every evaluation of a chain gradient function (the seed included)
+func noteRule() { verifRuleCount.Add(1) }
+
+func VerifRuleCount() int64 { return verifRuleCount.Load() }
